@@ -1,5 +1,6 @@
 import RootSim.Model.StatsLoop
-/-! Witness schedules for finding F6 (threads end with different numbers of statistics records). -/
+/-! Witness schedules for finding F6 (threads end with different numbers of statistics records); every
+configuration takes the variant of the flush loop (`Cfg.fix6`). -/
 namespace RootSim.StatsLoop
 
 def rep (l : List Nat) : Nat → List Nat
@@ -8,7 +9,8 @@ def rep (l : List Nat) : Nat → List Nat
 
 /-- 2 threads, `gvt_period = 0`, no termination predicate; an event handler of thread 1 calls
 `RootsimStop()` in its 15th batch. -/
-def stopCfg : Cfg := { n := 2, period := 0, stopBatch := fun i => if i = 1 then 15 else 0, voteAt := fun _ => 0 }
+def stopCfg (fix6 : Bool) : Cfg :=
+  { n := 2, period := 0, stopBatch := fun i => if i = 1 then 15 else 0, voteAt := fun _ => 0, fix6 := fix6 }
 
 /-- Yield-point schedule (replayable on the real code): the threads alternate until the first GVT round
 is in its last stage with thread 0 the reducer (`node_min_reduce_wait`, `c_d = 2`) standing at
@@ -21,12 +23,22 @@ def stopSched : List Nat := rep [0, 1] 28 ++ [0] ++ [1, 1, 0, 0, 0, 1, 1]
 
 /-- 2 threads, normal termination: thread 0's LPs satisfy the predicate from the start (it votes at the
 first GVT), thread 1's only later (it votes at the second). -/
-def voteCfg : Cfg := { n := 2, period := 0, stopBatch := fun _ => 0, voteAt := fun i => if i = 0 then 1 else 2 }
+def voteCfg (fix6 : Bool) : Cfg :=
+  { n := 2, period := 0, stopBatch := fun _ => 0, voteAt := fun i => if i = 0 then 1 else 2, fix6 := fix6 }
 
 /-- Fine-grained schedule: in the second round thread 1 is the reducer. Thread 0 calls
 `gvt_phase_run` (`node_min_wait`, `c_c ≠ 0`: returns 0.0); *before thread 0 evaluates the loop test*
 thread 1 completes the round, casts the last vote (`nodes_to_end = 0`) and writes its record; thread 0
 then fails the loop test and gets the second round's value only in the flush loop. -/
 def voteSched : List Nat := rep [0, 1] 60 ++ rep [1, 0] 32 ++ [0, 1, 0] ++ rep [0, 1] 6
+
+/-- 3 threads, `gvt_period = 0`; an event handler of thread 2 calls `RootsimStop()` in its 14th batch. -/
+def stop3Cfg (fix6 : Bool) : Cfg :=
+  { n := 3, period := 0, stopBatch := fun i => if i = 2 then 14 else 0, voteAt := fun _ => 0, fix6 := fix6 }
+
+/-- Yield-point schedule (replayable on the real code): round-robin until the first round is in its last stage,
+then thread 0 gets ahead by one grant: it receives the round's value in its worker loop, threads 1 and 2
+fail the loop test first and receive it in the flush loop. -/
+def stop3Sched : List Nat := rep [0, 1, 2] 18 ++ [0, 1, 0, 2] ++ rep [0, 1, 2] 12
 
 end RootSim.StatsLoop
